@@ -54,8 +54,8 @@ def opFor (L : Loc) : Op → Bool
 
 /-- ops issued while user code runs (no bracketing event of their own) -/
 def Op.inner : Op → Bool
-  | .setStep _ | .endStep | .log .. | .check .. | .url .. | .attach .. | .threadCreate _ | .threadRun
-  | .threadEnd => true
+  | .setStep _ | .endStep | .log .. | .check .. | .url .. | .attach .. | .attachBegin .. | .attachEnd
+  | .threadCreate _ | .threadRun | .threadEnd => true
   | _ => false
 
 theorem opEv_inner {op : Op} (h : op.inner = true) (e : Event) : opEv op e = false := by
@@ -319,6 +319,18 @@ theorem step_loc {L : Loc} {s s' : St} {tid : Nat} {op : Op} (hinv : LocInv L s)
     exact steppedCase { s with attachCount := s.attachCount + 1 } false
       (fun loc st t => Event.attachment loc st tid (attachName (s.attachCount + 1) filename) d asImage t)
       rfl rfl rfl (by simp [innerEv]) h
+  | attachBegin filename d asImage =>
+    simp only [step] at h; injection h with h; subst h
+    exact ⟨locInv_of_eq hinv rfl rfl, [], by simp, by intro e he; cases he⟩
+  | attachEnd =>
+    simp only [step] at h
+    cases hf : s.prepared.find? (fun p => p.tid == tid) with
+    | none => rw [hf] at h; cases h
+    | some p =>
+      rw [hf] at h; simp only at h
+      exact steppedCase { s with prepared := s.prepared.eraseP (fun p => p.tid == tid) } false
+        (fun loc st t => Event.attachment loc st tid p.name p.description p.asImage t)
+        rfl rfl rfl (by simp [innerEv]) h
   | threadCreate newTid =>
     simp only [step, withCursor] at h
     cases hc : getCursor s tid with
@@ -528,6 +540,15 @@ theorem step_hasCursor {s s' : St} {tid : Nat} {op : Op} (a : Nat) (ha : (getCur
     simp only [step] at h
     exact viaStepped { s with attachCount := s.attachCount + 1 } false
       (fun loc st t => Event.attachment loc st tid (attachName (s.attachCount + 1) filename) d asImage t) rfl h
+  | attachBegin filename d asImage => simp only [step] at h; injection h with h; subst h; exact same _ rfl
+  | attachEnd =>
+    simp only [step] at h
+    cases hf : s.prepared.find? (fun p => p.tid == tid) with
+    | none => rw [hf] at h; cases h
+    | some p =>
+      rw [hf] at h; simp only at h
+      exact viaStepped { s with prepared := s.prepared.eraseP (fun p => p.tid == tid) } false
+        (fun loc st t => Event.attachment loc st tid p.name p.description p.asImage t) rfl h
   | threadCreate newTid =>
     simp only [step, withCursor] at h
     cases hc : getCursor s tid with
